@@ -1,7 +1,7 @@
 (* Proofs about model/Disk.v: the number codec round trip, the file-system
    commands (locality), temp->rename atomicity of AioFile.dump, the per
    operation Hoare-style lemmas, and the crash-safety invariant (C04). *)
-From Coq Require Import List NArith Bool Lia PeanoNat DecimalN DecimalPos.
+From Coq Require Import List NArith Bool Lia PeanoNat DecimalN DecimalPos Permutation.
 From Coq Require Import ZifyBool ZifyN.
 From SV Require Import lib.Assoc model.StoreCore model.Disk.
 From SV Require Import proof.Assoc_lemmas proof.Rounds_lemmas proof.Prog_lemmas.
@@ -137,11 +137,20 @@ Proof.
     + exact IH.
 Qed.
 
+Lemma env_ids_perm s : Permutation.Permutation (nodup N.eq_dec (env_ids_raw s)) (env_ids s).
+Proof.
+  unfold env_ids. eapply Permutation.Permutation_trans; [apply sort_desc_perm_self|apply Permutation.Permutation_rev].
+Qed.
+
 Lemma env_ids_In s id : In id (env_ids s) <-> fget s (PEnv id) <> None.
-Proof. unfold env_ids. rewrite nodup_In. apply env_ids_raw_In. Qed.
+Proof.
+  rewrite <- env_ids_raw_In. split; intros H.
+  - apply (nodup_In N.eq_dec). eapply Permutation.Permutation_in; [apply Permutation.Permutation_sym, env_ids_perm|exact H].
+  - eapply Permutation.Permutation_in; [apply env_ids_perm|]. apply (nodup_In N.eq_dec). exact H.
+Qed.
 
 Lemma env_ids_NoDup s : NoDup (env_ids s).
-Proof. apply NoDup_nodup. Qed.
+Proof. eapply Permutation.Permutation_NoDup; [apply env_ids_perm|apply NoDup_nodup]. Qed.
 
 (* ---- the commands, through fget *)
 Definition dloc (s : fs) (p : path) : option bytes := fget s p.
@@ -187,6 +196,7 @@ Proof.
     assert (Hq' : path_eqb (PTmp t0) q || path_eqb p q = true) by exact Hq.
     rewrite !fget_fset. destruct (path_eqb p q) eqn:E1; [reflexivity|].
     rewrite !fget_fdel. destruct (path_eqb (PTmp t0) q) eqn:E2; [reflexivity|]. discriminate.
+  - cbn [fst snd]. split; [reflexivity|exact Hag].
   - cbn [fst snd]. split; [reflexivity|]. intros q Hq. apply path_eqb_eq in Hq. subst q.
     change (fget (fdel s p) p = fget (fdel t p) p). rewrite !fget_fdel_same. reflexivity.
   - cbn [fst snd]. rewrite (Hag p (path_eqb_refl p)). split; [reflexivity|exact Hag].
@@ -245,7 +255,7 @@ Section DiskProofs.
       p <> PTmp t ->
       (forall s', agree_but [PTmp t] s s' -> I d o s') ->
       (forall s2, agree_but [PTmp t; p] s s2 -> fget s2 p = Some data -> fget s2 (PTmp t) = None ->
-                  okrun d o s2 k) ->
+                  I d o s2 /\ okrun d o s2 k) ->
       forall fuel rest sofar off s1,
         agree_but [PTmp t] s s1 -> fget s1 (PTmp t) = Some sofar -> off = N.of_nat (length sofar) ->
         sofar ++ rest = data -> rest <> [] -> (length rest <= fuel)%nat ->
@@ -269,6 +279,9 @@ Section DiskProofs.
       - apply ok_do; [apply HI; exact Hag2|].
         intros s' a E. cbn [dexec] in E. rewrite Hget2 in E. inversion E; subst s' a; clear E.
         rewrite app_nil_r in Hsplit.
+        match goal with |- okrun _ _ ?st _ => assert (HK' : I d o st /\ okrun d o st k) end.
+        2:{ destruct HK' as [HI' HK']. apply ok_do; [exact HI'|].
+            intros s' a E. cbn [dexec] in E. inversion E; subst s' a. exact HK'. }
         apply HK.
         + intros q Hq. change (fget (fset (fdel s2 (PTmp t)) p (sofar ++ piece)) q = fget s q).
           rewrite fget_fset_other by (intros ->; apply Hq; right; left; reflexivity).
@@ -291,7 +304,7 @@ Section DiskProofs.
       p <> PTmp t -> data <> [] -> fget s (PTmp t) = None ->
       (forall s', agree_but [PTmp t] s s' -> I d o s') ->
       (forall s2, agree_but [PTmp t; p] s s2 -> fget s2 p = Some data -> fget s2 (PTmp t) = None ->
-                  okrun d o s2 k) ->
+                  I d o s2 /\ okrun d o s2 k) ->
       okrun d o s (dump data p t k).
     Proof.
       intros Hp Hne Hfree HI HK. unfold Disk.dump.
@@ -311,7 +324,7 @@ Section DiskProofs.
       tmps = t :: tl tmps -> fget s (PMeta id) = Some (enc_meta m) -> fget s (PTmp t) = None ->
       (forall s', agree_but [PTmp t] s s' -> I d o s') ->
       (forall s2, agree_but [PTmp t; PMeta id] s s2 -> fget s2 (PMeta id) = Some (enc_meta (f m)) ->
-                  fget s2 (PTmp t) = None -> B (d ++ [(o, result (f m))]) s2) ->
+                  fget s2 (PTmp t) = None -> I d o s2 /\ B (d ++ [(o, result (f m))]) s2) ->
       okrun d o s (update_meta enc_meta dec_meta chunk id tmps f result).
     Proof.
       intros Ht Hm Hfree HI HB. unfold update_meta, read_meta.
@@ -319,7 +332,7 @@ Section DiskProofs.
       intros s' a E. cbn [dexec] in E. inversion E; subst s' a; clear E.
       rewrite Hm, dec_enc_meta, Ht.
       apply okrun_dump; try assumption; [discriminate|apply enc_meta_nonempty|].
-      intros s2 H1 H2 H3. apply ok_ret. apply HB; assumption.
+      intros s2 H1 H2 H3. destruct (HB s2 H1 H2 H3) as [Hi Hb]. split; [exact Hi|apply ok_ret; exact Hb].
     Qed.
 
     Lemma okrun_update_missing d o id tmps f result s :
@@ -341,7 +354,7 @@ Section DiskProofs.
                   fget s2 (PEnv id) = Some (enc_env e) ->
                   fget s2 (PMeta id) = Some (enc_meta (mkMeta ts 0 None)) ->
                   fget s2 (PTmp t1) = None -> fget s2 (PTmp t2) = None ->
-                  B (d ++ [(o, RId id)]) s2) ->
+                  I d o s2 /\ B (d ++ [(o, RId id)]) s2) ->
       okrun d o s (d_write enc_env enc_meta chunk e ts (pre ++ id :: post) (t1 :: t2 :: tmps)).
     Proof.
       intros Hpre Hid Hf1 Hf2 HI1 HI2 HB.
@@ -350,6 +363,8 @@ Section DiskProofs.
         intros s' a E. cbn [dexec] in E. rewrite amem_fget, Hid in E. inversion E; subst s' a; clear E.
         apply okrun_dump; try assumption; [discriminate|apply enc_env_nonempty|].
         intros s1 A1 G1 F1.
+        split.
+        { apply HI2; [|exact G1]. intros q Hq. apply A1. intros [<-|[<-|[]]]; apply Hq; [left; reflexivity|right; right; left; reflexivity]. }
         assert (F2 : fget s1 (PTmp t2) = None).
         { destruct (N.eq_dec t1 t2) as [->|Hne]; [exact F1|].
           rewrite A1; [exact Hf2|]. intros [E|[E|[]]]; inversion E; congruence. }
@@ -359,7 +374,10 @@ Section DiskProofs.
             -- intros [<-|[<-|[]]]; apply Hq; [left; reflexivity|right; right; left; reflexivity].
             -- intros [<-|[]]. apply Hq. right; left; reflexivity.
           * rewrite A'; [exact G1|]. intros [E|[]]; discriminate.
-        + intros s2 A2 G2 F2'. apply ok_ret. apply HB.
+        + intros s2 A2 G2 F2'.
+          match goal with |- _ /\ okrun _ _ _ (Ret ?r) => assert (HB' : I d o s2 /\ B (d ++ [(o, r)]) s2) end.
+          2:{ destruct HB' as [Hi Hb]. split; [exact Hi|apply ok_ret; exact Hb]. }
+          apply HB.
           * intros q Hq. rewrite A2; [apply A1|].
             -- intros [<-|[<-|[]]]; apply Hq; [left; reflexivity|right; right; left; reflexivity].
             -- intros [<-|[<-|[]]]; apply Hq; [right; left; reflexivity|right; right; right; left; reflexivity].
